@@ -3,6 +3,7 @@ package rules
 import (
 	"golang.org/x/tools/go/ssa"
 	"reflect"
+	"strings"
 
 	"verifchk/core"
 )
@@ -27,7 +28,7 @@ func init() {
 		Assumptions:    []string{"lock held at both accesses implies no data race", "sync.Pool hands an object to one borrower at a time", trustDeps},
 	}
 	Properties["C08"] = PropSpec{
-		Rules:       []Rule{Stateless, Slots, OptionsRoundTrip, MapOrder("(*SchemaValidator).Validate", "(*ParamValidator).Validate", "(*HeaderValidator).Validate")},
+		Rules:       []Rule{Stateless, Slots, PoolAPI, ResLinear, OptionsRoundTrip, MapOrder("(*SchemaValidator).Validate", "(*ParamValidator).Validate", "(*HeaderValidator).Validate")},
 		Explanation: "STATELESS effect analysis over every function: each store into a field (or element of an array/slice/map held in a field) of the 13 validator types outside their constructors, and each call of a receiver-mutating method (summaries computed, interface dispatch resolved by method name over the implementations), is (i) guarded by the recycle option (directly or because the enclosing function is recycle-only, greatest fixpoint over call sites), (ii) applied to an object constructed in the same activation, or (iii) applied to an ephemeral type whose every instance is created, run once and dropped. SLOT-INIT: children are built only in the parent's constructor from distinct constructor calls; SLOT-ONESHOT: per-element validators are fresh. OPTIONS-ROUNDTRIP: every option returned by SchemaValidatorOptions.Options() restores exactly the field it was read from and every field is replayed, so a validator configured from another one's options is not silently switched to the one-shot recycling mode.",
 		NotDecided:  "Determinism of dependencies; lazy spec.ExpandSchema on sub-schemas that still contain $ref; equality of message sets across repetitions (behavioural).",
 		Assumptions: []string{"validator state = fields of the validator types; caller-supplied registries are outside", trustDeps},
@@ -57,7 +58,19 @@ func init() {
 				{Func: "(*HeaderValidator).Validate", DataArg: 1},
 				{Func: "(*itemsValidator).Validate", DataArg: 2},
 			}, jsonDomain, "JSON value domain (raw document, defaults and examples are decoded JSON)"),
-			NilRule(nil), Bounds(nil), Cow, ExpandFirst,
+			NilRule(func(p *core.Prog) []*ssa.Parameter {
+				var out []*ssa.Parameter
+				for _, n := range []string{"Spec", "NewSpecValidator"} {
+					if f := p.Func(n); f != nil {
+						for _, prm := range f.Params {
+							if strings.HasSuffix(prm.Type().String(), "strfmt.Registry") {
+								out = append(out, prm)
+							}
+						}
+					}
+				}
+				return out
+			}), Bounds(nil), Cow, ExpandFirst, Slots,
 		},
 		Explanation: "EXPAND-FIRST: the documented invalid-schema panic of newSchemaValidator is unreachable from spec validation only if every schema handed to it there is the Swagger meta-schema, a successfully expanded response schema, or dominated by a successful ExpandSchema (two sites violate this: known finding). The same panic-freedom analyses as C06, from the entry points Spec / NewSpecValidator / (*SpecValidator).Validate: NIL over all functions (nil results of the visited-path heuristic, nil sections after failed expansion, nillable pointer fields of spec structs tested on the same access path, paired (value, error|ok|invalid-result) returns, interprocedural parameter nil-ness, the 'ensure map entry' idiom), PANIC-INVENTORY (reviewed explicit panics, divisions, unchecked assertions and kind-specific reflect calls legal for every dynamic type of decoded JSON reaching them, through the schema, parameter, header and items validators that judge defaults and examples), D-BOUND on every index/slice expression, constant Must-patterns parsed at analysis time.",
 		NotDecided:  "Termination; panics inside dependencies (loader, analysis, spec expander); document shapes the loader itself rejects.",
@@ -71,11 +84,14 @@ func init() {
 		Rules: []Rule{
 			PanicInventory(c06Entries, []DynEntry{{Func: "(*SchemaValidator).Validate", DataArg: 1}}, jsonDomain, "JSON value domain: nil, bool, float64, string, json.Number, []interface{}, map[string]interface{}, int64"),
 			NilRule(func(p *core.Prog) []*ssa.Parameter {
+				// caller-supplied values that may be nil: the instance, and the format registry (the code
+				// documents "no registry" as nil); identified by type, not by parameter name
 				var out []*ssa.Parameter
-				for _, n := range []string{"(*SchemaValidator).Validate", "AgainstSchema"} {
+				for _, n := range []string{"(*SchemaValidator).Validate", "AgainstSchema", "NewSchemaValidator"} {
 					if f := p.Func(n); f != nil {
 						for _, prm := range f.Params {
-							if prm.Name() == "data" {
+							ts := prm.Type().String()
+							if ts == "interface{}" || ts == "any" || strings.HasSuffix(ts, "strfmt.Registry") {
 								out = append(out, prm)
 							}
 						}
@@ -83,7 +99,7 @@ func init() {
 				}
 				return out
 			}),
-			Bounds(nil), Cow,
+			Bounds(nil), Cow, Slots,
 		},
 		Explanation: "PANIC-INVENTORY over the functions reachable from AgainstSchema / NewSchemaValidator / (*SchemaValidator).Validate (CHA-style call graph restricted to the package): every explicit panic is in the reviewed table (D-DOC), every integer division has a divisor excluded from zero by a dominating test (D-DIV), every unchecked type assertion and kind-specific reflect.Value call is legal for every dynamic type of the JSON value domain that can reach it — decided by conditional constant propagation over the dynamic type of the datum (D-DYN, one abstract run per type, Applies() evaluated per kind so that a validator is analysed exactly for the kinds it is dispatched on), pool-layer assertions match the pool's element type (D-POOLTYPE); NIL: every dereference of a possibly-nil value (nil-returning functions with iff-parameter and paired-error refinements, nillable spec fields, map lookups, failed comma-ok forms, interprocedural parameter nil-ness) is dominated by a nil test of the same value or access path; D-BOUND: every index/slice expression is within bounds by a linear argument from dominating conditions and monotone loop variables; constant patterns given to the panicking regexp compile are parsed at analysis time (COW).",
 		NotDecided:  "Termination and stack depth (self-referential $ref, regexp run time); panics inside dependencies or caller-supplied format checkers; values outside the JSON value domain (named Go types, pointers, structs).",
@@ -206,13 +222,13 @@ func init() {
 
 func init() {
 	Properties["C18"] = PropSpec{
-		Rules:       []Rule{Schemata, KConsistent, ResultAlgebra, ResLinear},
+		Rules:       []Rule{Schemata, KConsistent, ResultAlgebra, ResLinear, GuardScope},
 		Explanation: "SCHEMATA/POST: the per-field and per-item schemata lists of a Result only receive appends to themselves or fresh slices (never the list of a result about to be recycled), every recorded entry holds cloned schemata, an absent member is recorded exactly on (absent, Default != nil, !skipSchemataResult), every schema-validation result — also for nil data — carries its schema as root schemata; ApplyDefaults has a single write, key.Object()[key.Field()] = s.Default, confined to members found absent by a comma-ok lookup of the same object and field, s ranging over that member's schemata with Default != nil, over every recorded member. K-CONSISTENT: each member's result is merged under (container, that member's key). RESULT-ALGEBRA/RES-LINEAR: merges apply their effects once and results are not used after release.",
 		NotDecided:  "Which anyOf/oneOf alternative's schemata survive, correctness at depth and that no other member appears beyond the single-write shape: value-level.",
 		Assumptions: []string{trustDeps},
 	}
 	Properties["C19"] = PropSpec{
-		Rules:       []Rule{Schemata, KConsistent, ResultAlgebra, ResLinear},
+		Rules:       []Rule{Schemata, KConsistent, ResultAlgebra, ResLinear, GuardScope},
 		Explanation: "SCHEMATA/POST as for C18, and for pruning: pruneObject's single write is delete(obj, field) with field ranging over obj, decided by FieldSchemata()[NewFieldKey(obj, field)] of the same object and member; prune recurses into every map value and slice element. K-CONSISTENT: the result of validating a member (declared, pattern or additional property, tuple / additional / list item) is filed under (container, that member's own key or index), so a described member has schemata and an undescribed one has none.",
 		NotDecided:  "As C18; idempotence of pruning.",
 		Assumptions: []string{trustDeps},
@@ -221,7 +237,7 @@ func init() {
 
 func init() {
 	Properties["C09"] = PropSpec{
-		Rules:       []Rule{Traverse, ResetBetween, RuleSeq},
+		Rules:       []Rule{Traverse, ResetBetween, RuleSeq, GuardScope},
 		Explanation: "TRAVERSE: (a) the recursive descent of both walkers calls itself on schema.Items.Schema, each of Items.Schemas, each of Properties, AdditionalProperties.Schema and each of AllOf, with a path that extends the current one and contains the loop key/index (so members get distinct visited-set keys), merged with Merge; the schema's own default/example is validated by a validator built from that schema; (b) the default and the example walker are compared step by step (callee, argument provenance, guard conditions, path shape): every traversal step of the default walker exists in the example walker under the same guards; (c) a leaf verdict on a default enters as Merge (error), on an example as MergeAsWarnings, and both walkers are merged with Merge in Validate (RULE-SEQ); (d) the skip predicate isVisited may answer true only on the found edge of the lookup of that path; RESET-BETWEEN: every top-level walk (per parameter, per response schema, per definition) starts from an emptied visited set on every path, loops included, so that a path of one walk can never be taken for a visited path of another.",
 		NotDecided:  "That each leaf validation is right (C01/C16); the behaviour of the recursion cut-off on circular specifications.",
 		Assumptions: []string{trustDeps},
